@@ -6,7 +6,7 @@ import ast
 import z3
 from . import ty as T
 from .ty import Ty, INT, BOOL, REAL, STR, REF, NONE, sort_of, parse_type, Opt, ListT, SetT, DictT, TupleT
-from .core import V, PY, CellLoc, FieldLoc, State, Obligation, Unsupported, fresh, fresh_name
+from .core import V, PY, CellLoc, FieldLoc, OptFieldLoc, State, Obligation, Unsupported, fresh, fresh_name
 
 I0 = z3.IntVal(0)
 I1 = z3.IntVal(1)
@@ -168,6 +168,9 @@ class Engine:
                     return self.load(V(v.ty, loc=h[1]), st)
                 raise Unsupported('read of escaped cell')
             return h
+        if isinstance(loc, OptFieldLoc):
+            arr = self.get_field_array(st, loc.fname, loc.oty)
+            return T.opt_val(loc.oty, T.Sel(arr, loc.ref))
         arr = self.get_field_array(st, loc.fname, v.ty)
         return T.Sel(arr, loc.ref)
 
@@ -185,6 +188,10 @@ class Engine:
             return
         if st.guards:
             raise Unsupported('heap write under a short-circuit guard')
+        if isinstance(loc, OptFieldLoc):
+            arr = self.get_field_array(st, loc.fname, loc.oty)
+            st.fields[loc.fname] = z3.Store(arr, loc.ref, T.opt_some(loc.oty, term))
+            return
         arr = self.get_field_array(st, loc.fname, v.ty)
         st.fields[loc.fname] = z3.Store(arr, loc.ref, term)
 
@@ -225,8 +232,11 @@ class Engine:
             return V(ty, T.opt_some(ty, self.as_term(iv, st)))
         if v.ty.kind == 'Optional':
             # implicit unwrap: the value must not be None here
-            self.total(st, z3.Not(T.opt_is_none(v.ty, v.t)), f'{what} is not None')
-            inner = self.unbox(v.ty.args[0], T.opt_val(v.ty, v.t), st)
+            cur = self.opt_term(v, st)
+            self.total(st, z3.Not(T.opt_is_none(v.ty, cur)), f'{what} is not None')
+            inner = self.unbox(v.ty.args[0], T.opt_val(v.ty, cur), st)
+            if isinstance(v.loc, FieldLoc) and v.ty.args[0].is_container:
+                inner = V(v.ty.args[0], None, OptFieldLoc(v.loc.ref, v.loc.fname, v.ty))
             return self.coerce(inner, ty, st)
         if ty.kind == 'Ref' and v.ty.kind == 'Ref':
             return V(ty, v.t)
@@ -244,6 +254,12 @@ class Engine:
             parts = [self.as_term(self.coerce(self.tuple_get(v, i, st), a, st), st) for i, a in enumerate(ty.args)]
             return V(ty, T.tup_mk(ty, *parts))
         raise Unsupported(f'cannot coerce {v.ty!r} to {ty!r} ({what})')
+
+    def opt_term(self, v, st):
+        """Current term of an Optional value (re-read from its field when it aliases one)."""
+        if v.ty.kind == 'Optional' and isinstance(v.loc, FieldLoc):
+            return T.Sel(self.get_field_array(st, v.loc.fname, v.ty), v.loc.ref)
+        return v.t
 
     def unbox(self, ty, term, st):
         """A value read out of a container/field: containers become value-Vs (no location)."""
@@ -675,6 +691,11 @@ class Engine:
         return self.mk_list(st, et, la + lb, arr)
 
     def np_binop(self, op, a, b, st):
+        if a.ty.kind == 'Optional':
+            a = self.coerce(a, a.ty.args[0], st, 'operand')
+        if b.ty.kind == 'Optional':
+            b = self.coerce(b, b.ty.args[0], st, 'operand')
+
         def parts(v):
             if v.ty.kind == 'Np1':
                 ln, arr = self.seq_parts(v, st)
@@ -767,7 +788,7 @@ class Engine:
                 if x.ty.kind == 'NoneT':
                     r = z3.BoolVal(True)
                 elif x.ty.kind == 'Optional':
-                    r = T.opt_is_none(x.ty, x.t)
+                    r = T.opt_is_none(x.ty, self.opt_term(x, st))
                 else:
                     r = z3.BoolVal(False)
                 return z3.Not(r) if neg else r
@@ -807,6 +828,11 @@ class Engine:
         except Unsupported:
             return z3.BoolVal(False) if self._disjoint(a.ty, b.ty) else (_ for _ in ()).throw(
                 Unsupported(f'== between {a.ty!r} and {b.ty!r}'))
+        if t.kind == 'Optional' and t.args[0].is_container:
+            ta, tb = self.opt_term(a2, st) if a2.loc is not None else a2.t, self.opt_term(b2, st) if b2.loc is not None else b2.t
+            na, nb = T.opt_is_none(t, ta), T.opt_is_none(t, tb)
+            inner = self.equals(V(t.args[0], T.opt_val(t, ta)), V(t.args[0], T.opt_val(t, tb)), st)
+            return z3.And(na == nb, z3.Implies(z3.Not(na), inner))
         if t.kind in ('List', 'Np1'):
             la, aa = self.seq_parts(a2, st)
             lb, ab = self.seq_parts(b2, st)
@@ -922,6 +948,8 @@ class Engine:
             if fty.is_container:
                 return V(fty, loc=FieldLoc(obj.t, key))
             arr = self.get_field_array(st, key, fty)
+            if fty.kind == 'Optional' and fty.args[0].is_container:
+                return V(fty, T.Sel(arr, obj.t), FieldLoc(obj.t, key))
             return V(fty, T.Sel(arr, obj.t))
         if k == 'Enum' and name == 'value':
             return V(INT, obj.t)
@@ -1068,6 +1096,8 @@ class Engine:
 
     def setitem(self, target, val, st):
         obj = self.eval(target.value, st)
+        if obj.ty.kind == 'Optional' and obj.ty.args[0].is_container:
+            obj = self.coerce(obj, obj.ty.args[0], st, 'subscripted value')
         sl = target.slice
         k = obj.ty.kind
         what = self.src(target)
